@@ -1,6 +1,7 @@
 SPECIFICATION Spec
 CONSTANTS
   WorkerCpus <- D_Workers
+  LateWorkers <- D_Late
   WorkerGroup <- D_Groups
   WorkerLife <- D_Life
   MaxTicks = 0
